@@ -71,6 +71,8 @@ Lemma load_dump_relB e s s0 : static (cf e) -> rel KB s s0 -> rel KB s (load_dum
 Proof.
   intros [Hd _] H. unfold load_dump. rewrite Hd. cbv zeta.
   destruct (stored (sr (nd s0))) as [[sn|]|]; auto.
+  cbn [andb]. destruct (eidx (s_e1 sn) <=? applied (nd s0)).
+  { eapply rel_trans; [exact H|]. simpl. unfold sameB, rinv. cbn. split; [reflexivity|]. auto. }
   destruct (self_ver (nd s0) <? s_ver sn); auto.
   cbn [orb].
   eapply rel_trans; [exact H|]. simpl. unfold sameB, rinv. cbn. split; [reflexivity|]. lia.
